@@ -1,2 +1,79 @@
-(* C12 - placeholder while the direct checks are being validated *)
-From GV Require Import Base.Prelude Valid.Compose.
+(* C12 - validation is a deterministic, compositional function of document and schema.
+   Theorems only; proofs in Valid/ComposeProps.v.
+
+   Model (Valid/Compose.v): validate rules limit fuel doc = one traversal (Lang/Visit.v) with the
+   ParallelVisitor composition of abstract rule visitors (state-passing deciders with private
+   state, answering idle / skip / break, reporting errors) into a sink with an error limit.
+   The rules are universally quantified: the theorems hold for every rule set whose members
+   depend only on their own state and the node.  That the ~30 concrete rules of the
+   implementation have this form is checked by the alone-vs-together runs of harness/c12.py,
+   not proved per rule.  TypeInfo and the context caches are not modelled.
+   [fuel] bounds the nesting depth; the hypothesis depth_tree doc <= fuel excludes OutOfFuel. *)
+From Coq Require Import Permutation.
+From GV Require Import Base.Prelude Lang.Visit Lang.VisitProps Valid.Compose Valid.ComposeProps.
+
+(* With an error limit n: the unlimited list if it has at most n errors, otherwise its first n
+   errors followed by the abort notice. *)
+Theorem C12_limit : forall RS E (rs : list (rule RS E * RS)) n fuel doc,
+  (depth_tree doc <= fuel)%nat ->
+  validate rs (Some n) fuel doc =
+  let es := validate rs None fuel doc in
+  if (length es <=? n)%nat then es else firstn n es ++ [Aborted].
+Proof. exact validate_limit. Qed.
+Print Assumptions C12_limit.
+
+(* Rules together vs alone, including rules that SKIP subtrees or BREAK off: the errors of the
+   i-th rule inside the combined run are exactly (same errors, same order) the errors of that
+   rule run alone. *)
+Theorem C12_union_projection : forall RS E (rs : list (rule RS E * RS)) fuel doc i rx,
+  (depth_tree doc <= fuel)%nat -> nth_error rs i = Some rx ->
+  proj E i (validate rs None fuel doc) = validate [rx] None fuel doc.
+Proof. exact validate_projection. Qed.
+Print Assumptions C12_union_projection.
+
+(* ... and nothing else is reported: the combined list is a permutation of the concatenation
+   of the solo lists (multiset union), for every rule set and every document. *)
+Theorem C12_union : forall RS E (rs : list (rule RS E * RS)) fuel doc,
+  (depth_tree doc <= fuel)%nat ->
+  Permutation (validate rs None fuel doc)
+              (flat_map (fun i => match nth_error rs i with
+                                  | Some rx => map (retag E i) (validate [rx] None fuel doc)
+                                  | None => []
+                                  end) (seq 0 (length rs))).
+Proof. exact validate_union. Qed.
+Print Assumptions C12_union.
+
+(* Descriptions: with a key table [keep] (the slots that are traversed) two documents that agree
+   outside the excluded slots validate identically, and the rule visitors are called exactly on
+   the nodes reachable through kept slots (never inside an excluded slot). *)
+Theorem C12_descriptions_ignored : forall RS E keep (rs : list (rule RS E * RS)) limit fuel d d',
+  agree_tree keep d d' ->
+  validate_keys keep rs limit fuel d = validate_keys keep rs limit fuel d' /\
+  map (fun c => (fst c, tid (snd c))) (calls_tree (mask_tree keep d)) = kept_calls_tree keep d.
+Proof. intros. split; [apply validate_keys_agree; assumption | apply masked_calls]. Qed.
+Print Assumptions C12_descriptions_ignored.
+
+(* validate() = the limited view of the unlimited error list of the depth-first call sequence *)
+Theorem C12_validate_is_fold : forall RS E (rs : list (rule RS E * RS)) limit fuel doc,
+  (depth_tree doc <= fuel)%nat ->
+  validate rs limit fuel doc =
+  let k := limited limit (snd (run_spec (map fst rs) (calls_tree doc) (init_sts RS E rs))) in
+  s_errs k ++ (if s_aborted k then [Aborted] else []).
+Proof. exact validate_spec. Qed.
+Print Assumptions C12_validate_is_fold.
+
+(* ---- non-vacuity: three scripted rules on a small document, one skips, one breaks ---- *)
+Definition ex_doc : tree :=
+  Node 1 1 (SCons (SArr (TCons (Node 2 2 (SCons (SOne (Node 3 3 SNil)) SNil))
+                        (TCons (Node 2 4 SNil) TNil))) SNil).
+Definition ex_rules : list (rule unit (N * phase * nat) * unit) :=
+  [ (scripted_rule [(2, Enter, RSkip, 1%nat); (3, Enter, RIdle, 5%nat); (4, Leave, RIdle, 2%nat)], tt);
+    (scripted_rule [(3, Enter, RBreakOff, 1%nat); (4, Enter, RIdle, 7%nat)], tt);
+    (scripted_rule [(1, Enter, RIdle, 1%nat); (3, Leave, RIdle, 1%nat); (1, Leave, RIdle, 1%nat)], tt) ].
+
+Example C12_example :
+  (depth_tree ex_doc <= 5)%nat /\
+  length (validate ex_rules None 5 ex_doc) = 7%nat /\
+  validate ex_rules (Some 3%nat) 5 ex_doc = firstn 3 (validate ex_rules None 5 ex_doc) ++ [Aborted] /\
+  proj _ 1 (validate ex_rules None 5 ex_doc) = [VErr 0%nat (3, Enter, 0%nat)].
+Proof. vm_compute. repeat split. lia. Qed.
